@@ -32,6 +32,47 @@ def find(F, suffix):
     return [d for d in F.bodies if d.endswith(suffix)]
 
 
+def zero_take_while(F, s, used, inp):
+    """`used` is start + the length of the longest run of zero bytes from `start` (bounded by a `take`): the count of a
+    `take_while` over a byte view of the input whose predicate is exactly `byte == 0`"""
+    from ..lin import atoms_deep
+    from ..interp import State
+    if not isinstance(used, IntV):
+        return False
+    for a in atoms_deep(used.l):
+        if not (a[0] == "cnt" and isinstance(a[1], tuple) and a[1][0] == "take_while"):
+            continue
+        key = a[1][1]
+        if len(key) != 3 or key[1][0] != "bytes" or key[2][0] != "fn":
+            continue
+        sl = key[1][1]
+        if sl[0] != "sl" or sl[1] != inp.base:
+            continue
+        start = Lin.from_key(sl[2])
+        if not solver.entails(s.pc, flit(eq(used.l, start - inp.start + Lin.atom(a)))):
+            continue
+        fn = key[2][1]
+        if fn not in F.bodies:
+            continue
+        I2 = Interp(F)
+        b = IntV(Lin.atom(("sym", "skipped-byte", "u8")), "u8")
+        try:
+            outs = I2.apply_fn(State(), FnV(fn, captures={}), [b], {"sp": None})
+        except Exception:
+            continue
+        good = bool(outs)
+        for s2, k2, r in outs:
+            if not (k2 == "val" and isinstance(r, BoolV)):
+                good = False
+                break
+            # the predicate holds exactly for a zero byte
+            if not (solver.entails(s2.pc + [eq(b.l, 0)], r.f) and solver.entails(s2.pc + [ne(b.l, 0)], f_not(r.f))):
+                good = False
+        if good:
+            return True
+    return False
+
+
 def run(ctx, res):
     F = ctx.F
     D = Disc(F)
@@ -150,6 +191,12 @@ def run(ctx, res):
                                 solver.entails([l], flit(eq(view_byte(inp, Lin.atom(a)), 0))) for l in delta)
                         if z:
                             zero_loops += 1
+        if zero_loops == 0:
+            # the same skip written with iterator adaptors: consumed = start + |take_while(bytes from start, b == 0)|
+            for s, k, v in outs:
+                if k == "val" and isinstance(v, StructV) and v.variant == "Ok" and id(s) in terminated:
+                    if zero_take_while(F, s, v.fields["0"].items[1], inp):
+                        zero_loops += 1
         res.ob(zero_loops >= 1, "terminator", chunk_parse[0], "SdesChunk: the fill after the terminator is skipped one byte at a time and only over zero bytes (a non-zero fill leaves the offset unaligned and is rejected)")
         for o in I.obligations:
             if not o.ok:
